@@ -69,11 +69,13 @@ def resolve_variable(value_str, variables, visited=None):
     # It assumes the value is *just* a var() or simple chain, not complex calcs yet
     import re
 
-    var_pattern = re.compile(r"var\((--[\w-]+)(?:\s*,\s*(.*))?\)")
-    match = var_pattern.search(value_str)
+    var_pattern = re.compile(r"var\(\s*(--[\w-]+)\s*(?:,\s*(.*))?\)", re.S)
+    match = var_pattern.fullmatch(value_str.strip())
 
     if not match:
-        return value_str
+        # var() is only a part of the value (e.g. "rgba(var(--ink), 0.3)"): the property
+        # is not the colour, and substituting tokens is beyond this resolver
+        return None
 
     var_name = match.group(1)
     fallback = match.group(2)
@@ -194,9 +196,10 @@ def process_nodes_recursive(
                                     import re
 
                                     # var(--name) or var(--name, fallback)
-                                    var_match = re.search(
+                                    var_match = re.fullmatch(
                                         r"var\(\s*(--[\w-]+)\s*(?:,.*)?\)",
-                                        raw_text_color,
+                                        raw_text_color.strip(),
+                                        re.S,
                                     )
                                     if var_match and var_match.group(1) in variables:
                                         # Update the variable definition
